@@ -53,15 +53,16 @@ def run(ctx):
     rets = [ea.stmt(r) for r in ea.find(lambda s: isinstance(s, ast.Return))]
     ctx.ob("R-ORDER", "C19.2", enc, "every path through the encoder returns a value", ea.cfg.every_exit_path_passes(ea.cfg.entry, ea.find(lambda s: isinstance(s, ast.Return))) and all(r.value is not None for r in rets), f"{len(rets)} returns")
     o = enc.params()[1]
+    from ..canon import canon as _canon
     want = {
-        f"isinstance({o}, np.integer)": f"int({o})",
-        f"isinstance({o}, np.floating)": f"float({o})",
-        f"isinstance({o}, np.ndarray)": f"{o}.tolist()",
+        f"isinstance({o}, integer)": f"int({o})",
+        f"isinstance({o}, floating)": f"float({o})",
+        f"isinstance({o}, ndarray)": f"{o}.tolist()",
         f"not is_jsonable({o})": f"str({o})",
     }
     got = {}
     for r in rets:
-        facts = [src(e) if t else f"not {src(e)}" for e, t in guard_facts(ea, ea.cfg.id_of(r))]
+        facts = [_canon(e) if t else f"not {_canon(e)}" for e, t in guard_facts(ea, ea.cfg.id_of(r))]
         facts = [f for f in facts if not f.startswith("not isinstance")]
         if facts:
             got[facts[-1]] = src(r.value)
